@@ -26,6 +26,12 @@ class Verdict:
         self.violations.append({"signature": signature(prop, rule, kinds), "prop": prop, "rule": rule,
                                 "kinds": sorted(set(kinds)), "detail": detail, "seq": seq, "client": client})
 
+    def absorb_unspecified(self, f):
+        """abstentions of the reference model (UNSPECIFIED verdicts), counted per rule for the evidence"""
+        self.unspecified += f.unspecified
+        for k, n in getattr(f, "unspec_rules", {}).items():
+            self.probe("abstained:" + k, n)
+
     def probe(self, name, n=1):
         self.probes[name] = self.probes.get(name, 0) + n
 
@@ -249,7 +255,7 @@ class Check:
                 continue
             n_sol += 1
             f = self.evaluate_event(plan, result, ev)
-            v.unspecified += f.unspecified
+            v.absorb_unspecified(f)
             v.rules_checked += f.checked
             for it in f.items:
                 if it["prop"] in props:
